@@ -195,7 +195,7 @@ func run(o hx.RunOpts) error {
 			return err
 		}
 	}
-	n := o.N(150, 2500)
+	n := o.N(150, 1500)
 	for i := 0; i < n; i++ {
 		if err := runCase(ctx, s, genCase(p.Fork(), o.Thorough())); err != nil {
 			return err
